@@ -1,62 +1,33 @@
-package main
+package c31
 
 // C31: translation validation / correspondence for mathutil, fee, CoinHours.
 
 import (
 	"fmt"
 
+	. "verif/harness/kit"
+
 	"github.com/skycoin/skycoin/src/coin"
 	"github.com/skycoin/skycoin/src/util/fee"
 	"github.com/skycoin/skycoin/src/util/mathutil"
 )
 
-func init() { cmds["c31"] = runC31 }
-
 var c31Sentinels = map[error]string{
-	mathutil.ErrUint64MultOverflow:           "ErrUint64MultOverflow",
-	mathutil.ErrUint64AddOverflow:            "ErrUint64AddOverflow",
-	mathutil.ErrUint32AddOverflow:            "ErrUint32AddOverflow",
-	mathutil.ErrUint64OverflowsInt64:         "ErrUint64OverflowsInt64",
-	mathutil.ErrInt64UnderflowsUint64:        "ErrInt64UnderflowsUint64",
-	mathutil.ErrIntUnderflowsUint32:          "ErrIntUnderflowsUint32",
-	mathutil.ErrIntOverflowsUint32:           "ErrIntOverflowsUint32",
-	fee.ErrTxnNoFee:                          "ErrTxnNoFee",
-	fee.ErrTxnInsufficientFee:                "ErrTxnInsufficientFee",
-	fee.ErrTxnInsufficientCoinHours:          "ErrTxnInsufficientCoinHours",
+	mathutil.ErrUint64MultOverflow:             "ErrUint64MultOverflow",
+	mathutil.ErrUint64AddOverflow:              "ErrUint64AddOverflow",
+	mathutil.ErrUint32AddOverflow:              "ErrUint32AddOverflow",
+	mathutil.ErrUint64OverflowsInt64:           "ErrUint64OverflowsInt64",
+	mathutil.ErrInt64UnderflowsUint64:          "ErrInt64UnderflowsUint64",
+	mathutil.ErrIntUnderflowsUint32:            "ErrIntUnderflowsUint32",
+	mathutil.ErrIntOverflowsUint32:             "ErrIntOverflowsUint32",
+	fee.ErrTxnNoFee:                            "ErrTxnNoFee",
+	fee.ErrTxnInsufficientFee:                  "ErrTxnInsufficientFee",
+	fee.ErrTxnInsufficientCoinHours:            "ErrTxnInsufficientCoinHours",
 	coin.ErrAddEarnedCoinHoursAdditionOverflow: "ErrAddEarnedCoinHoursAdditionOverflow",
 }
 
-// errClass maps a Go error to the name the Coq model uses: the sentinel's
-// identifier when it is one, else the message text.
-func errClass(err error, sentinels map[error]string) string {
-	if err == nil {
-		return ""
-	}
-	if n, ok := sentinels[err]; ok {
-		return n
-	}
-	return err.Error()
-}
-
-// guard runs f and reports a runtime panic as an observable.
-func guard(f func()) (panicked bool) {
-	defer func() {
-		if r := recover(); r != nil {
-			panicked = true
-		}
-	}()
-	f()
-	return false
-}
-
-func resZE(panicked bool, v string, e string) string {
-	if panicked {
-		return "Panic"
-	}
-	return "(Val (" + v + ", " + OptErr(e) + "))"
-}
-
-func runC31(args []string) error {
+// Run is the c31 sub-command.
+func Run(args []string) error {
 	f := ParseFlags("c31", args)
 	r := NewRng(f.Seed)
 	n := f.Budget(400, 20000)
@@ -85,9 +56,9 @@ func runC31(args []string) error {
 		{
 			var v uint64
 			var err error
-			p := guard(func() { v, err = mathutil.AddUint64(a, b) })
-			add64 = append(add64, Tuple(Z(a), Z(b), resZE(p, Z(v), errClass(err, c31Sentinels))))
-			rec("add64", map[string]interface{}{"a": u(a), "b": u(b), "ret": u(v), "err": errClass(err, c31Sentinels)})
+			p := Guard(func() { v, err = mathutil.AddUint64(a, b) })
+			add64 = append(add64, Tuple(Z(a), Z(b), ResZE(p, Z(v), ErrClass(err, c31Sentinels))))
+			rec("add64", map[string]interface{}{"a": u(a), "b": u(b), "ret": u(v), "err": ErrClass(err, c31Sentinels)})
 			o.Count(fmt.Sprint("add64", a, b), true)
 			hist.Add("add64:" + okErr(err))
 		}
@@ -98,9 +69,9 @@ func runC31(args []string) error {
 			}
 			var v uint64
 			var err error
-			p := guard(func() { v, err = mathutil.MultUint64(ma, mb) })
-			mul64 = append(mul64, Tuple(Z(ma), Z(mb), resZE(p, Z(v), errClass(err, c31Sentinels))))
-			rec("mul64", map[string]interface{}{"a": u(ma), "b": u(mb), "ret": u(v), "err": errClass(err, c31Sentinels)})
+			p := Guard(func() { v, err = mathutil.MultUint64(ma, mb) })
+			mul64 = append(mul64, Tuple(Z(ma), Z(mb), ResZE(p, Z(v), ErrClass(err, c31Sentinels))))
+			rec("mul64", map[string]interface{}{"a": u(ma), "b": u(mb), "ret": u(v), "err": ErrClass(err, c31Sentinels)})
 			o.Count(fmt.Sprint("mul64", ma, mb), true)
 			hist.Add("mul64:" + okErr(err))
 		}
@@ -111,18 +82,18 @@ func runC31(args []string) error {
 			}
 			var v uint32
 			var err error
-			p := guard(func() { v, err = mathutil.AddUint32(a32, b32) })
-			add32 = append(add32, Tuple(Z(uint64(a32)), Z(uint64(b32)), resZE(p, Z(uint64(v)), errClass(err, c31Sentinels))))
-			rec("add32", map[string]interface{}{"a": a32, "b": b32, "ret": v, "err": errClass(err, c31Sentinels)})
+			p := Guard(func() { v, err = mathutil.AddUint32(a32, b32) })
+			add32 = append(add32, Tuple(Z(uint64(a32)), Z(uint64(b32)), ResZE(p, Z(uint64(v)), ErrClass(err, c31Sentinels))))
+			rec("add32", map[string]interface{}{"a": a32, "b": b32, "ret": v, "err": ErrClass(err, c31Sentinels)})
 			o.Count(fmt.Sprint("add32", a32, b32), true)
 			hist.Add("add32:" + okErr(err))
 		}
 		{
 			var v int64
 			var err error
-			p := guard(func() { v, err = mathutil.Uint64ToInt64(a) })
-			u2i = append(u2i, Tuple(Z(a), resZE(p, ZI(v), errClass(err, c31Sentinels))))
-			rec("u2i", map[string]interface{}{"a": u(a), "ret": v, "err": errClass(err, c31Sentinels)})
+			p := Guard(func() { v, err = mathutil.Uint64ToInt64(a) })
+			u2i = append(u2i, Tuple(Z(a), ResZE(p, ZI(v), ErrClass(err, c31Sentinels))))
+			rec("u2i", map[string]interface{}{"a": u(a), "ret": v, "err": ErrClass(err, c31Sentinels)})
 			o.Count(fmt.Sprint("u2i", a), true)
 			hist.Add("u2i:" + okErr(err))
 		}
@@ -130,9 +101,9 @@ func runC31(args []string) error {
 			var v uint64
 			var err error
 			ia := int64(a)
-			p := guard(func() { v, err = mathutil.Int64ToUint64(ia) })
-			i2u = append(i2u, Tuple(ZI(ia), resZE(p, Z(v), errClass(err, c31Sentinels))))
-			rec("i2u", map[string]interface{}{"a": ia, "ret": u(v), "err": errClass(err, c31Sentinels)})
+			p := Guard(func() { v, err = mathutil.Int64ToUint64(ia) })
+			i2u = append(i2u, Tuple(ZI(ia), ResZE(p, Z(v), ErrClass(err, c31Sentinels))))
+			rec("i2u", map[string]interface{}{"a": ia, "ret": u(v), "err": ErrClass(err, c31Sentinels)})
 			o.Count(fmt.Sprint("i2u", ia), true)
 			hist.Add("i2u:" + okErr(err))
 		}
@@ -143,9 +114,9 @@ func runC31(args []string) error {
 			if r.Chance(40) {
 				ia = int(int64(r.U64Edge() >> 31))
 			}
-			p := guard(func() { v, err = mathutil.IntToUint32(ia) })
-			int2u32 = append(int2u32, Tuple(ZI(int64(ia)), resZE(p, Z(uint64(v)), errClass(err, c31Sentinels))))
-			rec("int2u32", map[string]interface{}{"a": ia, "ret": v, "err": errClass(err, c31Sentinels)})
+			p := Guard(func() { v, err = mathutil.IntToUint32(ia) })
+			int2u32 = append(int2u32, Tuple(ZI(int64(ia)), ResZE(p, Z(uint64(v)), ErrClass(err, c31Sentinels))))
+			rec("int2u32", map[string]interface{}{"a": ia, "ret": v, "err": ErrClass(err, c31Sentinels)})
 			o.Count(fmt.Sprint("int2u32", ia), true)
 			hist.Add("int2u32:" + okErr(err))
 		}
@@ -163,7 +134,7 @@ func runC31(args []string) error {
 		}
 		{
 			var v uint64
-			p := guard(func() { v = fee.RequiredFee(hrs, bf) })
+			p := Guard(func() { v = fee.RequiredFee(hrs, bf) })
 			s := "(Val " + Z(v) + ")"
 			if p {
 				s = "Panic"
@@ -172,7 +143,7 @@ func runC31(args []string) error {
 			rec("reqfee", map[string]interface{}{"hours": u(hrs), "burn": bf, "ret": u(v), "panic": p})
 			o.Count(fmt.Sprint("reqfee", hrs, bf), bf != 0)
 			var w uint64
-			p = guard(func() { w = fee.RemainingHours(hrs, bf) })
+			p = Guard(func() { w = fee.RemainingHours(hrs, bf) })
 			s = "(Val " + Z(w) + ")"
 			if p {
 				s = "Panic"
@@ -194,15 +165,15 @@ func runC31(args []string) error {
 				}
 			}
 			var err error
-			p := guard(func() { err = fee.VerifyTransactionFeeForHours(hrs, fe, bf) })
-			s := "(Val " + OptErr(errClass(err, c31Sentinels)) + ")"
+			p := Guard(func() { err = fee.VerifyTransactionFeeForHours(hrs, fe, bf) })
+			s := "(Val " + OptErr(ErrClass(err, c31Sentinels)) + ")"
 			if p {
 				s = "Panic"
 			}
 			vfee = append(vfee, Tuple(Z(hrs), Z(fe), Z(uint64(bf)), s))
-			rec("vfee", map[string]interface{}{"hours": u(hrs), "fee": u(fe), "burn": bf, "err": errClass(err, c31Sentinels), "panic": p})
+			rec("vfee", map[string]interface{}{"hours": u(hrs), "fee": u(fe), "burn": bf, "err": ErrClass(err, c31Sentinels), "panic": p})
 			o.Count(fmt.Sprint("vfee", hrs, fe, bf), true)
-			hist.Add("vfee:" + errClass(err, c31Sentinels))
+			hist.Add("vfee:" + ErrClass(err, c31Sentinels))
 		}
 		// CoinHours
 		{
@@ -214,7 +185,7 @@ func runC31(args []string) error {
 				coins = uint64(r.Intn(1e9)) * uint64(1+r.Intn(1e6))
 				hours = uint64(r.Intn(1e9))
 			case 1: // whole-coin product near 2^64
-				coins = (1 + uint64(r.Intn(1e6))) * 1e6 + uint64(r.Intn(1e6))
+				coins = (1+uint64(r.Intn(1e6)))*1e6 + uint64(r.Intn(1e6))
 				tm = uint64(r.Intn(10))
 				d := ^uint64(0)/(coins/1e6) + uint64(r.Intn(5)) - 2
 				t = tm + d
@@ -233,13 +204,13 @@ func runC31(args []string) error {
 			ux := coin.UxOut{Head: coin.UxHead{Time: tm}, Body: coin.UxBody{Coins: coins, Hours: hours}}
 			var v uint64
 			var err error
-			p := guard(func() { v, err = ux.CoinHours(t) })
-			ch = append(ch, Tuple(Z(tm), Z(coins), Z(hours), Z(t), resZE(p, Z(v), errClass(err, c31Sentinels))))
-			cls := errClass(err, c31Sentinels)
+			p := Guard(func() { v, err = ux.CoinHours(t) })
+			ch = append(ch, Tuple(Z(tm), Z(coins), Z(hours), Z(t), ResZE(p, Z(v), ErrClass(err, c31Sentinels))))
+			cls := ErrClass(err, c31Sentinels)
 			if len(cls) > 50 {
 				cls = cls[:50]
 			}
-			rec("coinhours", map[string]interface{}{"time": u(tm), "coins": u(coins), "hours": u(hours), "t": u(t), "ret": u(v), "err": errClass(err, c31Sentinels)})
+			rec("coinhours", map[string]interface{}{"time": u(tm), "coins": u(coins), "hours": u(hours), "t": u(t), "ret": u(v), "err": ErrClass(err, c31Sentinels)})
 			o.Count(fmt.Sprint("ch", tm, coins, hours, t), t >= tm)
 			hist.Add("coinhours:" + cls)
 		}
